@@ -79,6 +79,13 @@ CHECKS = {
         note="Probabilities to 1e-9 relative; hard predictions only where the top-two margin exceeds it and the wrapped classifier is not in its random fall-back state. Argument-validation refusals (duplicate indices under enforce_unique_samples) end a run; mixed weighted/unweighted calls are not generated (invalid).",
         design="4/C19",
     ),
+    "C20": dict(
+        engine="parsim",
+        technique=TECH + "joblib task orders, worker isolation (pickle round trip), baton-scheduled real threads with seeded pre-emption at line events inside skactiveml, simulated CPU counts; comparison with the sequentially queried wrapped strategy",
+        text="NARROWED CLAIM: the parallel-wrapper clause. ParallelUtilityEstimationWrapper runs on a simulated joblib backend selected through its own parallel_dict: tasks are executed in a seeded permutation, optionally each behind a cloudpickle/pickle round trip (process semantics), or as real threads of which a baton lets exactly one run while a sys.settrace hook pre-empts at up to six seeded task-local line counts inside skactiveml code; joblib.cpu_count as seen by the wrapper is simulated (1..64) and n_jobs ranges over 1..candidates+3, -1, -2. The wrapper must not raise where the wrapped strategy answers, must return the wrapped strategy's utilities (1e-12) and a pick that attains their maximum and, for equal seeds, equals the wrapped strategy's pick. The sub-sampling and single-annotator wrapper clauses are pure functions of the seed and are not decided by this technique.",
+        note="Inner strategies: whitelist of strategies whose candidate utilities are independent of the other candidates; a divergence is reported only after the same chunks evaluated sequentially by the harness agree with the unchunked query. Pick equality only when the utilities are bit-identical or the top-two gap is clear, and only when the wrapped strategy's own pick is a function of (utilities, seed). Pre-emption granularity is a Python line inside skactiveml; loky is represented by pickle isolation.",
+        design="4/C20",
+    ),
 }
 
 NOT_APPLICABLE = {
